@@ -10,7 +10,7 @@ FUNCS = ["pce500.emulator:PCE500Emulator.save_snapshot", "pce500.emulator:PCE500
          "pce500.scheduler:TimerScheduler.reset/next_mti/next_sti setters (timer unit, shared with C13)"]
 KEYS_QUICK = ["KEY_A", "KEY_ENTER", "KEY_F1", "KEY_Q", "KEY_P", "KEY_TRIANGLE_UP_DOWN"]
 SRC = [None, "MTI", "STI", "KEY", "ONK"]
-SCENARIOS = ["loop-timers", "halt-wake", "keys", "lcd"]
+SCENARIOS = ["loop-timers", "halt-wake", "keys", "lcd", "card-ram"]
 
 
 def all_keys():
